@@ -37,8 +37,8 @@ type scen struct {
 func scenarios(thorough bool) []scen {
 	// quick: the two scenarios that subsume the others' behaviours get the whole budget
 	s := []scen{
-		{"2c+1r", 2, 1, false, 0, 0},
 		{"1c+1r-iter", 1, 1, true, 0, 0},
+		{"2c+1r", 2, 1, false, 0, 0}, // last: it gets what the small scenario leaves of its share
 	}
 	if thorough {
 		s = append(s,
